@@ -392,11 +392,12 @@ impl TracingEventReceiver {
 
     fn create_local_span(&self, data: &SpanData) -> Result<Id, ReceiveError> {
         let metadata = self.metadata(data.metadata_id)?;
+        // The parent is validated when the span is announced. When the span is re-created
+        // from the persisted data, the parent may be dropped already or have no local ID;
+        // in both cases, the contextual parent is used.
         let local_parent_id = data
             .parent_id
-            .map(|parent_id| self.map_span_id(parent_id))
-            .transpose()?
-            .flatten();
+            .and_then(|parent_id| self.local_spans.inner.get(&parent_id));
 
         let value_set = Self::generate_fields(metadata, &data.values);
         let value_set = Self::expand_fields(&value_set);
@@ -442,6 +443,10 @@ impl TracingEventReceiver {
                     values,
                 };
                 if !self.local_spans.inner.contains_key(&id) {
+                    if let Some(parent_id) = parent_id {
+                        self.metadata(metadata_id)?;
+                        self.map_span_id(parent_id)?;
+                    }
                     let local_id = self.create_local_span(&data)?;
                     self.local_spans.inner.insert(id, local_id);
                 }
